@@ -286,7 +286,7 @@ pub fn worker_main<W: World>(world: &Arc<W>, verif_seed: u64, tier: Tier, runs: 
     while i < start_from {
         i += n;
     }
-    let mut since_poll = 0;
+    let mut since_poll = 32; // look at the stop file before the first case
     while i < runs {
         if since_poll >= 32 {
             since_poll = 0;
@@ -529,6 +529,10 @@ pub fn run_batch<W: World>(world: &Arc<W>, verif_seed: u64, tier: Tier, runs: u6
                             let _ = c.kill();
                             let _ = c.wait();
                             s.child = None;
+                            if i > stop_at {
+                                // a violation with a lower run index is already known: nothing behind it matters
+                                continue;
+                            }
                             watchdog_reexams += 1;
                             if let Ok(txt) = std::fs::read_to_string(format!("{}.partial", s.out)) {
                                 if let Ok(rep) = serde_json::from_str::<WorkerReport>(&txt) {
